@@ -87,6 +87,16 @@ CHECKS = {
             "Every receiver/transmitter, receiver/base-station and potential/current pair is linked from either side and driven by generated edits of shared parameters through either side, copies (plain, cross-workspace, copy of a copy, by extent) and re-opens; both stored nodes and both API views must carry both identifiers and agree on every shared field, partners must resolve to each other after re-open, copies must be linked to each other and not to the originals (large-loop / DC: the copied transmitter side holds exactly what the copied receivers refer to).",
             "'Property groups' (component groups, resolved by name on the entity that owns the data) is compared in the stored JSON only; MT receivers have no partner and appear only as unlinked control in C12.",
             "DESIGN.md 3/C20"),
+    "C17": ("geom", "exploration",
+            "PBT against index formulas written from the format documentation (pure NumPy reference), setter/read histories for cache invalidation, tiling predicate for default octrees, connectivity oracle for curve parts",
+            "Generated block models, 2-D grids and octrees (origin explicit or omitted, exact and arbitrary rotations/dips, negative sizes, decreasing delimiters) with interleaved geometry setters and centroid reads are compared with the documented index formulas; default octrees must tile the base grid exactly once; curve segments from parts and parts from segments are compared with a connectivity reference.",
+            "Tolerance 1e-9*(1+scale); DrapeModel is in the anchors but not in the statement and is not covered.",
+            "DESIGN.md 3/C17"),
+    "C18": ("geom", "exploration",
+            "PBT against a reference desurvey written in plain Python from the stations as read back; invariants (collar at 0, 1-Lipschitz continuity, mean direction within a leg, continuation beyond the end, repeatability) and value-to-depth pairing after generated additions",
+            "Generated collars, survey tables (repeated depths, first depth > 0, any azimuth/dip), query depths and sequences of depth / interval data additions (unsorted, overlapping, collocated within or outside different tolerances, float/int/text, re-opens); every vertex must sit at desurvey(depth), every cell must join desurvey(from)/desurvey(to), and every added value must be found at a support within tolerance of where it was added.",
+            "Direction convention (azimuth clockwise from north, dip negative down) taken from the user guide and the default survey, verified on the vertical hole; tolerance 1e-6*(1+depth); 'continues the last direction' accepts the last leg's mean or the last station's direction.",
+            "DESIGN.md 3/C18"),
 }
 
 NOT_APPLICABLE = {}
@@ -131,6 +141,8 @@ def main():
         "engines": [
             {"name": "tree", "path": "vp/engines/tree.py", "serves_properties": ["C01", "C02", "C05", "C06", "C09", "C12"],
              "kind_free_text": "Hypothesis strategy for operation programs + interpreter with reference model over groups/objects/data/property groups"},
+            {"name": "geom", "path": "vp/engines/geom.py", "serves_properties": ["C17", "C18"],
+             "kind_free_text": "reference centroid / tiling / connectivity / desurvey formulas and strategies (no geoh5py import)"},
             {"name": "survey", "path": "vp/props/c20.py", "serves_properties": ["C20"],
              "kind_free_text": "survey pair builders, edit/copy/re-open programs, two-sided metadata invariants"},
             {"name": "spatial", "path": "vp/engines/spatial.py", "serves_properties": ["C13", "C16"],
